@@ -248,7 +248,7 @@ func (c *Ctx) writerRun(name string, cases []*WCase, withStd bool) (int, error) 
 	for _, cs := range cases {
 		cs.Family = "writer"
 		cs.Set.Impl = "fastgo"
-		if c.mech && cs.Set.Kind == "flate" && cs.Set.Dict == nil && !cs.CountOnly &&
+		if c.mech && cs.Set.Kind == "flate" && cs.Set.Dict == nil && !cs.CountOnly && cs.Soak == 0 &&
 			(cs.Set.Level == 1 || cs.Set.Level == 2 || cs.Set.Level == -1 || (cs.Set.Window == 4096 && cs.Set.Level > 0)) {
 			cs.Mech = true
 		}
@@ -394,6 +394,34 @@ func checkC16(c *Ctx) (int, error) {
 			}
 		}
 	}
+	// gzip Writers whose header fields cannot be encoded (Extra too long, NUL or a code point above
+	// U+00FF in Name/Comment): every call up to the Reset reports it, nothing panics
+	nBad := 0
+	for i, b := range behs {
+		if i%3 != 0 {
+			continue
+		}
+		h, err := parseHist(b)
+		if err != nil {
+			return 0, err
+		}
+		set := WSetting{Kind: "gzip", Level: []int{-2, 1, 2, 6, -1, 0}[(i/3)%6], Window: 32768, Hdr: badHeader(i / 3)}
+		cs := &WCase{ID: fmt.Sprintf("C16-badhdr-%d", i), Set: set, Tag: settingTag(set) + "|unencodable-header"}
+		total := 0
+		for _, o := range h {
+			op := Op{Op: o.Op}
+			if o.Op == "W" {
+				op.N = []int{0, 7, 70000}[o.N]
+				total += op.N
+			}
+			cs.Ops = append(cs.Ops, op)
+		}
+		cs.Data = DataSpec{Class: "text", Seed: int64(i), Len: total}
+		cases = append(cases, cs)
+		nBad++
+		c.ev.nontrivial(histString(cs.Ops) + "|" + cs.Tag + fmt.Sprint(i/3%5))
+	}
+	c.ev.Extra["unencodable_header_cases"] = nBad
 	c.ev.Rule = fmt.Sprintf("every history of exactly %d calls over {Write(0|small|large), Flush, Close, Reset} printed by TLC from WriterModel (prefixes are validated event by event), each on %d settings of %d; non-trivial = contains a Close and at least one other call; distinct by (history, setting)", maxLen, perHist, nset)
 	c.ev.Exhaustive = true
 	for _, cs := range spread(cases) {
